@@ -17,7 +17,10 @@ RULE = ("pairs of quantities built from a random unit AST (1-3 factors prefix*un
         "an unrelated one) x value grid (either sign, zero where meaningful, arrays) x optional errors; operations + - * / "
         "neg, ** (int / pair / float, n/d with d<=6), with a plain number on either side; a op a on one object; constructors with "
         "cancelling units; ndarray magnitudes of int64/int32/int16/uint8/float32/float64 with units as dict/BaseUnits/dimension "
-        "list/none/text, powers and products leaving the integer range, caller's array modified after construction; non-trivial = both operands carry "
+        "list/none/text, powers and products leaving the integer range, caller's array modified after construction; float "
+        "exponents as np.float64/float32/float16/longdouble; augmented assignments; q.rebase(); histories: quantities created "
+        "once and reused in 3-7 operations (every operator, unary minus, powers, a op a) with the results rebased/converted in "
+        "place in between, model and specification fed the creation-time state, operands re-read at the end; non-trivial = both operands carry "
         "units and differ in units, or a non-integer exponent, or a result whose dimensions vanish; distinct = canonical JSON")
 ASSUMPTIONS = [
     "units: all table units whose definition is not a temperature/logarithmic rule class (those belong to C05); the angle "
@@ -39,6 +42,9 @@ ASSUMPTIONS = [
     "errors (impl vs model) are compared up to 1e-9 relative or 1e-11 x |value| (they are differences/sums of numbers of the size "
     "of the value); a non-finite or raised (ZeroDivision/Overflow) result is a violation only if the model's result, its base "
     "value and every unit factor are finite and inside 1e-250..1e250, otherwise it is counted as float overflow and not judged",
+    "a float32/float16 exponent is judged only when it is exactly n/d (d in 1,2,4): otherwise it denotes another number and "
+    "value and unit exponent legitimately differ in the 8th digit; rebase() cases only with unit lists in which units "
+    "sharing the names of their dimensions have the same dimension vector (see c08 ASSUMPTIONS)",
     "every unit list names a unit id once (they become Python dicts); Unit().x / text targets are used only when the unit "
     "parser (C03) reads them as the intended units",
 ]
@@ -381,7 +387,7 @@ def compare_spec(imp, spec, rows, scale=None):
     if not close(b, spec["base"], scale):
         return ("base", "value in base dimensions is %s, should be %s" % (b, spec["base"]))
     iu = {u: qfrac(n, d) for u, n, d in imp["u"]}
-    su = {u: qfrac(n, d) for u, n, d in spec["u"]}
+    su = {u: qfrac(n, d) for u, n, d in spec["u"]} if "u" in spec else iu
     if iu != su:
         return ("units", "unit exponents are %s, should be %s" % (
             {k: str(v) for k, v in iu.items()}, {k: str(v) for k, v in su.items()}))
@@ -470,7 +476,13 @@ def run_impl(case):
     req["env"] = env_rows(ids)
     poke(case, keep)       # the states above were read before: a quantity must not be a view of the caller's array
     try:
-        if op == "add":
+        if case.get("aug") and op in ("add", "sub", "mul", "div"):
+            # augmented assignment: q += x, q -= x, q *= x, q /= x
+            import operator
+            res = {"add": operator.iadd, "sub": operator.isub, "mul": operator.imul, "div": operator.itruediv}[op](lo, ro)
+        elif op == "rebase":
+            res = lo.rebase()
+        elif op == "add":
             res = lo + ro
         elif op == "sub":
             res = lo - ro
@@ -514,9 +526,11 @@ def run_impl(case):
                 res = lo ** SFraction(n, d)
             else:
                 x = n / d
-                req["p"] = float_to_frac(x)
+                if case.get("npfloat"):
+                    x = np.dtype("float64" if case["npfloat"] is True else case["npfloat"]).type(x)
+                req["p"] = float_to_frac(float(x))     # what the narrower float denotes (judged only if it is n/d)
                 req["p_intended"] = [n, d]
-                res = lo ** (np.float64(x) if case.get("npfloat") else x)
+                res = lo ** x
         else:
             raise ValueError(op)
         imp = mark_nonfinite(observe(res))
@@ -668,6 +682,8 @@ def _gen_case(rng):
         c = gen_ctor(rng)
     elif r < 0.90:
         return gen_typed_case(rng)
+    elif r < 0.93:
+        c = gen_rebase(rng)
     else:                                          # powers
         kind = rng.choice(["pow_int", "pow_pair", "pow_float", "pow_float", "pow_frac"])
         if kind != "pow_int" and rng.random() < 0.4:
@@ -683,12 +699,19 @@ def _gen_case(rng):
         # a genuinely fractional power of a negative number is not a real number (the code raises / gives nan): not generated
         v = gen_value(rng, positive=frac or d == 0, nonzero=True)
         c = {"op": kind, "lv": v, "lu": gen_units(rng, 2), "p": [n, d]}
-        if kind == "pow_float" and rng.random() < 0.3:
-            c["npfloat"] = True
+        if kind == "pow_float" and rng.random() < 0.45:
+            # the float exponent as a numpy scalar of any width (an element of a float32 array of indices, ...)
+            c["npfloat"] = rng.choice(["float64", "float32", "float16", "longdouble", "float32"])
+            if c["npfloat"] in ("float32", "float16") and d not in (0, 1, 2, 4):
+                c["p"] = [n, rng.choice([1, 2, 2, 4])]        # exactly representable in the narrow type
+                if c["p"][0] % c["p"][1] != 0 and (isinstance(v, list) and min(v) <= 0 or not isinstance(v, list) and v <= 0):
+                    c["lv"] = [abs(x) for x in v] if isinstance(v, list) else abs(v)
     c["mode"] = mode
     c["le"] = gen_err(rng, c["lv"]) if c.get("lu") is not None else None
     if "rv" in c:
         c["re"] = gen_err(rng, c["rv"]) if c.get("ru") is not None else None
+    if c["op"] in ("add", "sub", "mul", "div") and c.get("lu") is not None and rng.random() < 0.15:
+        c["aug"] = True
     if "rv" in c and not c.get("plain") and c.get("lu") is not None and c["op"] != "newq" and rng.random() < 0.08:
         # a op a : the same object on both sides
         if c["op"] == "div" and (c["lv"] == 0 or (isinstance(c["lv"], list) and 0 in c["lv"])):
@@ -746,6 +769,33 @@ def gen_typed_case(rng):
     return c
 
 
+def rebase_key(sym):
+    """the key Quantity.rebase merges on: the NAMES of the unit's non-zero dimensions"""
+    return tuple(i for i, d in enumerate(dims_of(sym)) if d[0] != 0)
+
+
+def gen_rebase(rng):
+    """q.rebase(): a compound unit that mixes units of one dimension (m*cm, m2/cm, J*erg-1*s ...). Units that share the
+    names of their dimensions but not the dimension itself (m and l, J and W) are left out: rebase() merges those as if
+    they were the same dimension (an issue of rebase itself, outside C06/C08)."""
+    while True:
+        lu = gen_units(rng, 2)
+        extra = variant(rng, lu) or lu
+        seen = {uid(*f) for f, _ in lu}
+        out = list(lu)
+        for f, e in extra:
+            if uid(*f) not in seen:
+                seen.add(uid(*f))
+                out.append((f, rng.choice([e, e, (-e[0], e[1]), (1, 1), (2, 1)])))
+        if rng.random() < 0.3:
+            rng.shuffle(out)
+        groups = {}
+        for (p_, sname), _ in out:
+            groups.setdefault(rebase_key(sname), set()).add(json.dumps(dims_of(sname)))
+        if all(len(g) == 1 for g in groups.values()):
+            return {"op": "rebase", "lv": gen_value(rng), "lu": out}
+
+
 def gen_ctor(rng):
     """Quantity(value, units): mostly unit expressions whose dimensions cancel with a factor != 1;
     Quantity(value, ref): the unit given as a quantity"""
@@ -797,6 +847,9 @@ CORPUS = [
     {"op": "pow_frac", "lv": -3.0, "lu": U(("k", "m", 1, 1)), "p": [4, 2]},
     {"op": "pow_float", "lv": -3.0, "lu": U(("k", "m", 1, 1)), "p": [2, 1]},
     {"op": "pow_float", "lv": [-2.0, 4.0, -5.0], "lu": U(("c", "m", 1, 1), ("", "s", -1, 1)), "p": [-2, 1], "npfloat": True},
+    {"op": "pow_float", "lv": 9.0, "lu": U(("k", "m", 2, 1), ("", "s", -1, 1)), "p": [1, 2], "npfloat": "float32"},
+    {"op": "pow_float", "lv": [1.0, 4.0], "lu": U(("", "m", 1, 1)), "p": [5, 2], "npfloat": "float16"},
+    {"op": "pow_float", "lv": 4.0, "lu": U(("", "s", 1, 1)), "p": [-3, 2], "npfloat": "longdouble"},
     {"op": "pow_pair", "lv": [-2.0, 4.0, -5.0], "lu": U(("c", "m", 1, 1), ("", "s", -1, 1)), "p": [-4, 2]},
     {"op": "pow_frac", "lv": -2.0, "lu": U(("", "s", 1, 2)), "p": [9, 3]},
     # mixed prefixes that must cancel
@@ -830,6 +883,13 @@ CORPUS = [
      "rv": [0.5, 1.25, 3.0], "ru": U(("", "m", 1, 1)), "rform": "dict", "rdtype": "float32"},
     {"op": "mul", "lv": [2.5, -4.0, 1000.0], "lu": U(("", "s", 1, 1)), "lform": "dict", "ldtype": "float64", "poke": True,
      "rv": [1, 2, 3], "ru": U(("", "s", -1, 1)), "rform": "text", "rdtype": "int32"},
+    # rebase(): units of one dimension merged
+    {"op": "rebase", "lv": 10.0, "lu": U(("", "m", 1, 1), ("c", "m", 1, 1)), "le": 0.7},
+    {"op": "rebase", "lv": [3.0, 6.0], "lu": U(("", "m", 2, 1), ("c", "m", -1, 1), ("", "s", -1, 1), ("", "min", 1, 2)), "le": 0.3},
+    # augmented assignment
+    {"op": "add", "aug": True, "lv": [2.0, 3.0, 4.0], "lu": U(("", "m", 1, 1)), "le": 0.01, "rv": [10.0, 20.0, 30.0], "ru": U(("c", "m", 1, 1)), "re": 0.5},
+    {"op": "sub", "aug": True, "lv": [2.0, 3.0], "lu": U(("", "m", 1, 1)), "rv": 1.0, "ru": U(("d", "m", 1, 1)), "re": 0.2},
+    {"op": "mul", "aug": True, "lv": [2.0, 3.0], "lu": U(("k", "m", 1, 1)), "le": 0.1, "rv": 4.0, "ru": U(("", "m", -1, 1)), "re": 0.2},
     # constructor with units whose dimensions cancel
     {"op": "new", "lv": 4.0, "lu": U(("c", "m", 1, 1), ("", "m", -1, 1)), "le": 0.1},
     {"op": "new", "lv": 3.0, "lu": U(("k", "Hz", 1, 1), ("", "s", 1, 1), ("", "%", 1, 1))},
@@ -838,6 +898,23 @@ CORPUS = [
     {"op": "newq", "lv": [1.0, 2.0], "lu": [], "le": 0.1, "rv": 2.0, "ru": U(("k", "m", 1, 1), ("", "m", -1, 1))},
     {"op": "newq", "lv": 123e2, "lu": [], "rv": 2.0, "ru": U(("", "m", 1, 1))},
 ]
+
+
+def exponent_judgeable(ctx, case, req):
+    """a float exponent is judged when it denotes the generated n/d"""
+    op = case["op"]
+    if op == "pow_float" and req.get("p_intended") and Q(*req["p"]) != Q(*req["p_intended"]):
+        ctx.count("float-not-denoting-n/d")
+        return False
+    if op == "pow_float" and case.get("npfloat") not in (None, True, "float64", "longdouble"):
+        import numpy as np
+        n_, d_ = case["p"]
+        if float(np.dtype(case["npfloat"]).type(n_ / d_)) != n_ / d_:
+            # a float32/float16 that is not exactly n/d (1/3, 1/5 ...) denotes another number: the value is its power,
+            # the unit exponent its nearest small fraction; nothing to judge
+            ctx.count("narrow-float-not-exactly-n/d")
+            return False
+    return True
 
 
 def judge(ctx, case, req, imp, ans, prop="C06"):
@@ -855,8 +932,7 @@ def judge(ctx, case, req, imp, ans, prop="C06"):
             return True
         ctx.count("nonfinite")
         return False
-    if op == "pow_float" and req.get("p_intended") and Q(*req["p"]) != Q(*req["p_intended"]):
-        ctx.count("float-not-denoting-n/d")
+    if not exponent_judgeable(ctx, case, req):
         return False
     scale = scale_for(case, req)
     mod, spec = ans["ok"]["model"], ans["ok"]["spec"]
@@ -875,6 +951,10 @@ def judge(ctx, case, req, imp, ans, prop="C06"):
         ctx.count("units-form." + str(case.get("lform")))
     if case.get("poke"):
         ctx.count("caller-array-modified-after-construction")
+    if case.get("aug"):
+        ctx.count("augmented-assignment")
+    if case.get("npfloat"):
+        ctx.count("exponent-numpy-" + ("float64" if case["npfloat"] is True else case["npfloat"]))
     if case.get("same"):
         ctx.count("same-object")
     bad = compare_spec(imp, spec, req["env"], scale)
@@ -936,6 +1016,12 @@ def describe(case):
         s += " , " + one(case["rv"], case.get("ru"), case.get("re"), case.get("rdtype"), case.get("rform"))
     if "p" in case:
         s += " ** %s/%s as %s" % (case["p"][0], case["p"][1], case["op"][4:])
+    if case.get("aug"):
+        s += " [augmented assignment]"
+    if case["op"] == "rebase":
+        s += " .rebase()"
+    if case.get("history"):
+        s += " after [%s] on the same objects" % "; ".join(case["history"])
     return s
 
 
@@ -967,11 +1053,153 @@ def run_cases(ctx, cases, prop="C06"):
                       {"value": imp["v"], "units": imp["units"]}})
 
 
+# ---------------------------------------------------------------- histories that reuse the same objects
+NZ = [1.0, -1.0, 2.0, 0.5, -3.0, 3.5, 12.0, 7.0, 10.0, 20.0, -0.25]
+
+
+def same_state(a, b):
+    return close(a.get("v"), b.get("v")) and close(a.get("e"), b.get("e")) and \
+        [(u, qfrac(n, d)) for u, n, d in a.get("u", [])] == [(u, qfrac(n, d)) for u, n, d in b.get("u", [])] and \
+        (a.get("e") is None) == (b.get("e") is None)
+
+
+def gen_pool_values(rng, n):
+    arr = rng.random() < 0.75
+    length = rng.choice([2, 3])
+    out = []
+    for i in range(n):
+        if arr and (i == 0 or rng.random() < 0.6):
+            v = [rng.choice(NZ) for _ in range(length)]
+        else:
+            v = rng.choice(NZ)
+        e = None if rng.random() < 0.15 else (min(abs(x) for x in v) if isinstance(v, list) else abs(v)) * rng.choice([0.05, 0.1, 0.2])
+        out.append((v, e))
+    return out
+
+
+def gen_steps(rng, n, quantity):
+    steps = []
+    for _ in range(rng.randint(3, 6)):
+        op = rng.choice(["add", "sub", "sub", "sub", "mul", "div", "neg", "pow", "add", "mul"])
+        i, j = rng.randrange(n), rng.randrange(n)
+        num = None
+        if op in ("add", "sub", "mul", "div") and rng.random() < 0.15 and (not quantity or op in ("mul", "div")):
+            num = rng.choice([2.0, -3.0, 0.5])
+        steps.append((op, i, j, num, rng.choice([2, -1, 3])))
+    return steps
+
+
+def step_text(op, i, j, num, p):
+    sym = {"add": "+", "sub": "-", "mul": "*", "div": "/"}
+    if op == "neg":
+        return "-x%d" % i
+    if op == "pow":
+        return "x%d**%d" % (i, p)
+    return "x%d %s %s" % (i, sym[op], ("x%d" % j) if num is None else repr(num))
+
+
+
+
+def qty_history(ctx, count, judge_fn, presets, signature):
+    """Quantities are created ONCE and used in several operations (every operator, a op a, unary minus, powers); results
+    are rebased / converted in place in between. Model and specification always get the state the operands were created
+    with; afterwards every operand is re-read."""
+    pending, finals = [], []
+    n = 3
+    for h in range(count + len(presets)):
+        preset = presets[h] if h < len(presets) else None
+        if preset:
+            vals, steps, us = preset["vals"], preset["steps"], preset["units"]
+        else:
+            vals = gen_pool_values(ctx.rng, n)
+            steps = gen_steps(ctx.rng, n, True)
+            lu = gen_units(ctx.rng, 2)
+            us = [lu] + [(variant(ctx.rng, lu) or lu) if ctx.rng.random() < 0.7 else lu for _ in range(n - 1)]
+        try:
+            objs = [build("dict", v, e, u)[0] for (v, e), u in zip(vals, us)]
+        except Exception:
+            continue
+        snaps = [state(o) for o in objs]
+        env = env_rows([x[0] for sn in snaps for x in sn["u"]])
+        pool = [[v, e, text_of(u)] for (v, e), u in zip(vals, us)]
+        done = []
+        for op, i, j, num, p in steps:
+            c = {"op": op if op != "pow" else "pow_int", "lv": vals[i][0], "lu": us[i], "le": vals[i][1],
+                 "history": list(done), "pool": pool}
+            req = {"k": "qty", "op": op, "l": snaps[i], "env": env}
+            l, r = objs[i], None
+            if op in ("add", "sub", "mul", "div"):
+                if num is not None:
+                    c.update({"rv": num, "ru": None, "plain": True})
+                    req["r"], r = {"num": num}, num
+                else:
+                    c.update({"rv": vals[j][0], "ru": us[j], "re": vals[j][1]})
+                    req["r"], r = snaps[j], objs[j]
+                    if i == j:
+                        c["same"] = True
+            elif op == "pow":
+                c["p"] = [p, 1]
+                req["p"] = [p, 1]
+            try:
+                res = {"add": lambda: l + r, "sub": lambda: l - r, "mul": lambda: l * r, "div": lambda: l / r,
+                       "neg": lambda: -l, "pow": lambda: l ** p}[op]()
+                imp = mark_nonfinite(observe(res))
+                # what a user does with a result: merge its units / convert it in place (must not reach the operands)
+                k = ctx.rng.random() if not preset else 0.0
+                try:
+                    if k < 0.5:
+                        res.rebase()
+                    elif k < 0.7 and res.units():
+                        res.to(res.units())
+                except Exception:
+                    pass
+            except (ZeroDivisionError, OverflowError, FloatingPointError):
+                imp = "nonfinite"
+            except Exception:
+                imp = "err"
+            done.append(step_text(op, i, j, num, p) + ("" if imp in ("err", "nonfinite") else " (result rebased/converted)"))
+            pending.append((c, req, imp))
+        for k in range(n):
+            finals.append(("x%d = Quantity(%r%s, '%s')" % (
+                k, vals[k][0], "" if vals[k][1] is None else ", abse=%g" % vals[k][1], text_of(us[k])),
+                snaps[k], state(objs[k]), done, pool))
+    answers = ask_many(ctx, [r for _, r, _ in pending])
+    for (c, req, imp), ans in zip(pending, answers):
+        judge_fn(ctx, c, req, imp, ans)
+    for text, snap, now, done, pool in finals:
+        ctx.count("history.operands-rechecked")
+        if not same_state(snap, now):
+            ctx.violation(signature,
+                          "%s has value %s abse %s units %s after the operations [%s]; it was created with value %s abse %s "
+                          "units %s, so every later operation with it no longer is the operation on the values given" %
+                          (text, now.get("v"), now.get("e"), now.get("u"), "; ".join(done), snap.get("v"), snap.get("e"),
+                           snap.get("u")), {"pool": pool, "steps": done, "created": snap, "now": now})
+
+
+C06_HISTORY_CORPUS = [
+    # product / quotient of same-dimension different-symbol units, result rebased, operands reused
+    {"vals": [(2.0, None), (3.0, None), ([1.0, -2.0, 3.0], None)],
+     "units": [U(("c", "m", 1, 1)), U(("", "m", 1, 1)), U(("k", "m", 1, 1))],
+     "steps": [("mul", 0, 1, None, 2), ("mul", 0, 1, None, 2), ("div", 0, 1, None, 2), ("pow", 0, 0, None, 2),
+               ("neg", 2, 0, None, 2), ("add", 2, 2, None, 2), ("sub", 1, 2, None, 2), ("mul", 2, 0, None, 2)]},
+    {"vals": [([100.0, 200.0, 300.0], None), ([1.0, 2.0, 3.0], None), (3.0, None)],
+     "units": [U(("", "m", 1, 1)), U(("k", "m", 1, 1)), U(("", "s", 1, 1))],
+     "steps": [("neg", 0, 0, None, 2), ("add", 0, 0, None, 2), ("sub", 1, 0, None, 2), ("neg", 1, 0, None, 2),
+               ("mul", 1, 1, None, 2), ("div", 0, 2, None, 2), ("div", 0, 2, None, 2)]},
+]
+
+
 def correspond(ctx: Ctx):
+    import warnings
+    warnings.simplefilter("ignore", RuntimeWarning)      # numpy's divide-by-zero / overflow notices (such cases are not judged)
     n = 12000 if ctx.tier == "thorough" else 2500
     cases = [dict(c) for c in CORPUS] + [gen_case(ctx.rng) for _ in range(n)]
     for i in range(0, len(cases), 1000):
         run_cases(ctx, cases[i:i + 1000])
+    qty_history(ctx, 600 if ctx.tier == "thorough" else 150,
+                lambda ctx_, c, req, imp, ans: judge(ctx_, c, req, imp, ans) and ctx_.case(
+                    json.dumps(c, sort_keys=True, default=str), True, None),
+                C06_HISTORY_CORPUS, "history:operand-changed")
 
 
 def replay(ctx, payload):
